@@ -7,7 +7,7 @@ package wal
 import (
 	"context"
 	"fmt"
-	"io"
+	"io/ioutil"
 	"strings"
 	"time"
 
@@ -264,25 +264,18 @@ func (w *WAL) read(ctx context.Context, token string, channels *walChannels) {
 	defer w.releaseConnection() // concurrency control
 	r, err := w.walStore.Get(ctx, token)
 	w.l.Debug("Read token", zap.String("token", token))
-	defer r.Close()
 	if err != nil {
 		channels.oops <- err
 		return
 	}
-	b := make([]byte, 1024)
-	for {
-		l, e := r.Read(b)
-		if e == io.EOF {
-			b = b[:l]
-			break
-		}
-	}
-	entry, err := model.UnmarshalWAL(b)
+	defer r.Close()
+	// Add stores the bare payload under the token: read it back in full
+	b, err := ioutil.ReadAll(r)
 	if err != nil {
 		channels.oops <- fmt.Errorf("token: %s, err: %s", token, err)
 		return
 	}
-	channels.entry <- entry
+	channels.entry <- model.NewEntry(token, string(b))
 }
 
 func (w *WAL) collectParallelResponses(ctx context.Context, channels *walChannels) {
